@@ -60,3 +60,226 @@ package html
 //@ sweep C14: getIndexLetter, surnameStartsWith, PublishHeader.WriteHTMLTo
 //@ sweep C14: IndividualPage.WriteHTMLTo, IndividualNameAndSex.WriteHTMLTo, IndividualAdditionalNames.WriteHTMLTo
 //@ sweep C14: EventDate.WriteHTMLTo
+
+// ---------------------------------------------------------------------------
+// C17: nothing that identifies a living individual leaves the tool unless
+// living individuals are shown. Discipline checked per component on the real
+// code: an accessor that reads a NAME of an individual (Name, Names, String)
+// may only be called when the individual is nil, not living, or the visibility
+// is Show; any other personal data (events, dates, places, sex, child nodes)
+// may not be read from a living individual in Hide mode ("the published site
+// is the same whatever the living individuals' personal data are"). livingOf
+// is the result of IsLiving() (its own computation is not the subject here).
+// The visibility handed to sub-components is the component's own.
+//@ func IndividualName.WriteHTMLTo
+//@   props C17
+//@   requires valid: c.visibility == LivingVisibilityShow || c.visibility == LivingVisibilityHide || c.visibility == LivingVisibilityPlaceholder
+//@   deepcall IndividualNode.Name check name-cleared: arg0 == nil || !livingOf(arg0) || c.visibility == LivingVisibilityShow
+//@   deepcall IndividualNode.Names check name-cleared: arg0 == nil || !livingOf(arg0) || c.visibility == LivingVisibilityShow
+//@   deepcall IndividualNode.String check name-cleared: arg0 == nil || !livingOf(arg0) || c.visibility == LivingVisibilityShow
+//@   deepcall IndividualNode.* except IsLiving,Is,Document,Families,Spouses,Parents,Children,SpouseChildren,FamilyWithSpouse,FamilyWithUnknownSpouse,Pointer,Identifier,Tag,Nodes,Name,Names,String check data-cleared: arg0 == nil || !livingOf(arg0) || c.visibility != LivingVisibilityHide
+//@   opaque IndividualNode.*, NameNode.*, BirthNode.*, DeathNode.*, BaptismNode.*, BurialNode.*, DateNode.*, PlaceNode.*, SexNode.*
+//@   assigns alloc
+//@   trustframe
+//@ func IndividualDates.WriteHTMLTo
+//@   props C17
+//@   requires valid: c.visibility == LivingVisibilityShow || c.visibility == LivingVisibilityHide || c.visibility == LivingVisibilityPlaceholder
+//@   deepcall IndividualNode.Name check name-cleared: arg0 == nil || !livingOf(arg0) || c.visibility == LivingVisibilityShow
+//@   deepcall IndividualNode.Names check name-cleared: arg0 == nil || !livingOf(arg0) || c.visibility == LivingVisibilityShow
+//@   deepcall IndividualNode.String check name-cleared: arg0 == nil || !livingOf(arg0) || c.visibility == LivingVisibilityShow
+//@   deepcall IndividualNode.* except IsLiving,Is,Document,Families,Spouses,Parents,Children,SpouseChildren,FamilyWithSpouse,FamilyWithUnknownSpouse,Pointer,Identifier,Tag,Nodes,Name,Names,String check data-cleared: arg0 == nil || !livingOf(arg0) || c.visibility != LivingVisibilityHide
+//@   opaque IndividualNode.*, NameNode.*, BirthNode.*, DeathNode.*, BaptismNode.*, BurialNode.*, DateNode.*, PlaceNode.*, SexNode.*
+//@   assigns alloc
+//@   trustframe
+//@ func IndividualLink.WriteHTMLTo
+//@   props C17
+//@   requires valid: c.visibility == LivingVisibilityShow || c.visibility == LivingVisibilityHide || c.visibility == LivingVisibilityPlaceholder
+//@   deepcall IndividualNode.Name check name-cleared: arg0 == nil || !livingOf(arg0) || c.visibility == LivingVisibilityShow
+//@   deepcall IndividualNode.Names check name-cleared: arg0 == nil || !livingOf(arg0) || c.visibility == LivingVisibilityShow
+//@   deepcall IndividualNode.String check name-cleared: arg0 == nil || !livingOf(arg0) || c.visibility == LivingVisibilityShow
+//@   deepcall IndividualNode.* except IsLiving,Is,Document,Families,Spouses,Parents,Children,SpouseChildren,FamilyWithSpouse,FamilyWithUnknownSpouse,Pointer,Identifier,Tag,Nodes,Name,Names,String check data-cleared: arg0 == nil || !livingOf(arg0) || c.visibility != LivingVisibilityHide
+//@   opaque IndividualNode.*, NameNode.*, BirthNode.*, DeathNode.*, BaptismNode.*, BurialNode.*, DateNode.*, PlaceNode.*, SexNode.*
+//@   assigns alloc
+//@   trustframe
+//@   oncall NewIndividualName check vis-passed: arg1 == c.visibility
+//@   oncall PageIndividual check vis-passed: arg2 == c.visibility
+//@ func IndividualButton.WriteHTMLTo
+//@   props C17
+//@   requires valid: c.visibility == LivingVisibilityShow || c.visibility == LivingVisibilityHide || c.visibility == LivingVisibilityPlaceholder
+//@   deepcall IndividualNode.Name check name-cleared: arg0 == nil || !livingOf(arg0) || c.visibility == LivingVisibilityShow
+//@   deepcall IndividualNode.Names check name-cleared: arg0 == nil || !livingOf(arg0) || c.visibility == LivingVisibilityShow
+//@   deepcall IndividualNode.String check name-cleared: arg0 == nil || !livingOf(arg0) || c.visibility == LivingVisibilityShow
+//@   deepcall IndividualNode.* except IsLiving,Is,Document,Families,Spouses,Parents,Children,SpouseChildren,FamilyWithSpouse,FamilyWithUnknownSpouse,Pointer,Identifier,Tag,Nodes,Name,Names,String check data-cleared: arg0 == nil || !livingOf(arg0) || c.visibility != LivingVisibilityHide
+//@   opaque IndividualNode.*, NameNode.*, BirthNode.*, DeathNode.*, BaptismNode.*, BurialNode.*, DateNode.*, PlaceNode.*, SexNode.*
+//@   assigns alloc
+//@   trustframe
+//@   oncall NewIndividualName check vis-passed: arg1 == c.visibility
+//@   oncall PageIndividual check vis-passed: arg2 == c.visibility
+//@   oncall NewIndividualDates check vis-passed: arg1 == c.visibility
+//@ func PageIndividual
+//@   props C17
+//@   requires valid: visibility == LivingVisibilityShow || visibility == LivingVisibilityHide || visibility == LivingVisibilityPlaceholder
+//@   deepcall IndividualNode.Name check name-cleared: arg0 == nil || !livingOf(arg0) || visibility == LivingVisibilityShow
+//@   deepcall IndividualNode.Names check name-cleared: arg0 == nil || !livingOf(arg0) || visibility == LivingVisibilityShow
+//@   deepcall IndividualNode.String check name-cleared: arg0 == nil || !livingOf(arg0) || visibility == LivingVisibilityShow
+//@   deepcall IndividualNode.* except IsLiving,Is,Document,Families,Spouses,Parents,Children,SpouseChildren,FamilyWithSpouse,FamilyWithUnknownSpouse,Pointer,Identifier,Tag,Nodes,Name,Names,String check data-cleared: arg0 == nil || !livingOf(arg0) || visibility != LivingVisibilityHide
+//@   opaque IndividualNode.*, NameNode.*, BirthNode.*, DeathNode.*, BaptismNode.*, BurialNode.*, DateNode.*, PlaceNode.*, SexNode.*
+//@   assigns alloc
+//@   trustframe
+//@   oncall getVisibleIndividuals check vis-passed: arg1 == visibility
+//@ func getVisibleIndividuals
+//@   props C17
+//@   requires valid: visibility == LivingVisibilityShow || visibility == LivingVisibilityHide || visibility == LivingVisibilityPlaceholder
+//@   deepcall IndividualNode.Name check name-cleared: arg0 == nil || !livingOf(arg0) || visibility == LivingVisibilityShow
+//@   deepcall IndividualNode.Names check name-cleared: arg0 == nil || !livingOf(arg0) || visibility == LivingVisibilityShow
+//@   deepcall IndividualNode.String check name-cleared: arg0 == nil || !livingOf(arg0) || visibility == LivingVisibilityShow
+//@   deepcall IndividualNode.* except IsLiving,Is,Document,Families,Spouses,Parents,Children,SpouseChildren,FamilyWithSpouse,FamilyWithUnknownSpouse,Pointer,Identifier,Tag,Nodes,Name,Names,String check data-cleared: arg0 == nil || !livingOf(arg0) || visibility != LivingVisibilityHide
+//@   opaque IndividualNode.*, NameNode.*, BirthNode.*, DeathNode.*, BaptismNode.*, BurialNode.*, DateNode.*, PlaceNode.*, SexNode.*
+//@   assigns alloc
+//@   trustframe
+//@ func getSurnames
+//@   props C17
+//@   requires valid: visibility == LivingVisibilityShow || visibility == LivingVisibilityHide || visibility == LivingVisibilityPlaceholder
+//@   deepcall IndividualNode.Name check name-cleared: arg0 == nil || !livingOf(arg0) || visibility == LivingVisibilityShow
+//@   deepcall IndividualNode.Names check name-cleared: arg0 == nil || !livingOf(arg0) || visibility == LivingVisibilityShow
+//@   deepcall IndividualNode.String check name-cleared: arg0 == nil || !livingOf(arg0) || visibility == LivingVisibilityShow
+//@   deepcall IndividualNode.* except IsLiving,Is,Document,Families,Spouses,Parents,Children,SpouseChildren,FamilyWithSpouse,FamilyWithUnknownSpouse,Pointer,Identifier,Tag,Nodes,Name,Names,String check data-cleared: arg0 == nil || !livingOf(arg0) || visibility != LivingVisibilityHide
+//@   opaque IndividualNode.*, NameNode.*, BirthNode.*, DeathNode.*, BaptismNode.*, BurialNode.*, DateNode.*, PlaceNode.*, SexNode.*
+//@   assigns alloc
+//@   trustframe
+//@ func GetIndexLetters
+//@   props C17
+//@   requires valid: livingVisibility == LivingVisibilityShow || livingVisibility == LivingVisibilityHide || livingVisibility == LivingVisibilityPlaceholder
+//@   deepcall IndividualNode.Name check name-cleared: arg0 == nil || !livingOf(arg0) || livingVisibility == LivingVisibilityShow
+//@   deepcall IndividualNode.Names check name-cleared: arg0 == nil || !livingOf(arg0) || livingVisibility == LivingVisibilityShow
+//@   deepcall IndividualNode.String check name-cleared: arg0 == nil || !livingOf(arg0) || livingVisibility == LivingVisibilityShow
+//@   deepcall IndividualNode.* except IsLiving,Is,Document,Families,Spouses,Parents,Children,SpouseChildren,FamilyWithSpouse,FamilyWithUnknownSpouse,Pointer,Identifier,Tag,Nodes,Name,Names,String check data-cleared: arg0 == nil || !livingOf(arg0) || livingVisibility != LivingVisibilityHide
+//@   opaque IndividualNode.*, NameNode.*, BirthNode.*, DeathNode.*, BaptismNode.*, BurialNode.*, DateNode.*, PlaceNode.*, SexNode.*
+//@   assigns alloc
+//@   trustframe
+//@ func SurnameIndex.WriteHTMLTo
+//@   props C17
+//@   requires valid: c.visibility == LivingVisibilityShow || c.visibility == LivingVisibilityHide || c.visibility == LivingVisibilityPlaceholder
+//@   deepcall IndividualNode.Name check name-cleared: arg0 == nil || !livingOf(arg0) || c.visibility == LivingVisibilityShow
+//@   deepcall IndividualNode.Names check name-cleared: arg0 == nil || !livingOf(arg0) || c.visibility == LivingVisibilityShow
+//@   deepcall IndividualNode.String check name-cleared: arg0 == nil || !livingOf(arg0) || c.visibility == LivingVisibilityShow
+//@   deepcall IndividualNode.* except IsLiving,Is,Document,Families,Spouses,Parents,Children,SpouseChildren,FamilyWithSpouse,FamilyWithUnknownSpouse,Pointer,Identifier,Tag,Nodes,Name,Names,String check data-cleared: arg0 == nil || !livingOf(arg0) || c.visibility != LivingVisibilityHide
+//@   opaque IndividualNode.*, NameNode.*, BirthNode.*, DeathNode.*, BaptismNode.*, BurialNode.*, DateNode.*, PlaceNode.*, SexNode.*
+//@   assigns alloc
+//@   trustframe
+//@ func PartnersAndChildren.WriteHTMLTo
+//@   props C17
+//@   requires valid: c.visibility == LivingVisibilityShow || c.visibility == LivingVisibilityHide || c.visibility == LivingVisibilityPlaceholder
+//@   deepcall IndividualNode.Name check name-cleared: arg0 == nil || !livingOf(arg0) || c.visibility == LivingVisibilityShow
+//@   deepcall IndividualNode.Names check name-cleared: arg0 == nil || !livingOf(arg0) || c.visibility == LivingVisibilityShow
+//@   deepcall IndividualNode.String check name-cleared: arg0 == nil || !livingOf(arg0) || c.visibility == LivingVisibilityShow
+//@   deepcall IndividualNode.* except IsLiving,Is,Document,Families,Spouses,Parents,Children,SpouseChildren,FamilyWithSpouse,FamilyWithUnknownSpouse,Pointer,Identifier,Tag,Nodes,Name,Names,String check data-cleared: arg0 == nil || !livingOf(arg0) || c.visibility != LivingVisibilityHide
+//@   opaque IndividualNode.*, NameNode.*, BirthNode.*, DeathNode.*, BaptismNode.*, BurialNode.*, DateNode.*, PlaceNode.*, SexNode.*
+//@   assigns alloc
+//@   trustframe
+//@ func ParentButtons.WriteHTMLTo
+//@   props C17
+//@   requires valid: c.visibility == LivingVisibilityShow || c.visibility == LivingVisibilityHide || c.visibility == LivingVisibilityPlaceholder
+//@   deepcall IndividualNode.Name check name-cleared: arg0 == nil || !livingOf(arg0) || c.visibility == LivingVisibilityShow
+//@   deepcall IndividualNode.Names check name-cleared: arg0 == nil || !livingOf(arg0) || c.visibility == LivingVisibilityShow
+//@   deepcall IndividualNode.String check name-cleared: arg0 == nil || !livingOf(arg0) || c.visibility == LivingVisibilityShow
+//@   deepcall IndividualNode.* except IsLiving,Is,Document,Families,Spouses,Parents,Children,SpouseChildren,FamilyWithSpouse,FamilyWithUnknownSpouse,Pointer,Identifier,Tag,Nodes,Name,Names,String check data-cleared: arg0 == nil || !livingOf(arg0) || c.visibility != LivingVisibilityHide
+//@   opaque IndividualNode.*, NameNode.*, BirthNode.*, DeathNode.*, BaptismNode.*, BurialNode.*, DateNode.*, PlaceNode.*, SexNode.*
+//@   assigns alloc
+//@   trustframe
+//@ func AllParentButtons.WriteHTMLTo
+//@   props C17
+//@   requires valid: c.visibility == LivingVisibilityShow || c.visibility == LivingVisibilityHide || c.visibility == LivingVisibilityPlaceholder
+//@   deepcall IndividualNode.Name check name-cleared: arg0 == nil || !livingOf(arg0) || c.visibility == LivingVisibilityShow
+//@   deepcall IndividualNode.Names check name-cleared: arg0 == nil || !livingOf(arg0) || c.visibility == LivingVisibilityShow
+//@   deepcall IndividualNode.String check name-cleared: arg0 == nil || !livingOf(arg0) || c.visibility == LivingVisibilityShow
+//@   deepcall IndividualNode.* except IsLiving,Is,Document,Families,Spouses,Parents,Children,SpouseChildren,FamilyWithSpouse,FamilyWithUnknownSpouse,Pointer,Identifier,Tag,Nodes,Name,Names,String check data-cleared: arg0 == nil || !livingOf(arg0) || c.visibility != LivingVisibilityHide
+//@   opaque IndividualNode.*, NameNode.*, BirthNode.*, DeathNode.*, BaptismNode.*, BurialNode.*, DateNode.*, PlaceNode.*, SexNode.*
+//@   assigns alloc
+//@   trustframe
+//@ func IndividualNameAndDatesLink.WriteHTMLTo
+//@   props C17
+//@   requires valid: c.visibility == LivingVisibilityShow || c.visibility == LivingVisibilityHide || c.visibility == LivingVisibilityPlaceholder
+//@   deepcall IndividualNode.Name check name-cleared: arg0 == nil || !livingOf(arg0) || c.visibility == LivingVisibilityShow
+//@   deepcall IndividualNode.Names check name-cleared: arg0 == nil || !livingOf(arg0) || c.visibility == LivingVisibilityShow
+//@   deepcall IndividualNode.String check name-cleared: arg0 == nil || !livingOf(arg0) || c.visibility == LivingVisibilityShow
+//@   deepcall IndividualNode.* except IsLiving,Is,Document,Families,Spouses,Parents,Children,SpouseChildren,FamilyWithSpouse,FamilyWithUnknownSpouse,Pointer,Identifier,Tag,Nodes,Name,Names,String check data-cleared: arg0 == nil || !livingOf(arg0) || c.visibility != LivingVisibilityHide
+//@   opaque IndividualNode.*, NameNode.*, BirthNode.*, DeathNode.*, BaptismNode.*, BurialNode.*, DateNode.*, PlaceNode.*, SexNode.*
+//@   assigns alloc
+//@   trustframe
+//@ func IndividualStatistics.WriteHTMLTo
+//@   props C17
+//@   requires valid: c.visibility == LivingVisibilityShow || c.visibility == LivingVisibilityHide || c.visibility == LivingVisibilityPlaceholder
+//@   deepcall IndividualNode.Name check name-cleared: arg0 == nil || !livingOf(arg0) || c.visibility == LivingVisibilityShow
+//@   deepcall IndividualNode.Names check name-cleared: arg0 == nil || !livingOf(arg0) || c.visibility == LivingVisibilityShow
+//@   deepcall IndividualNode.String check name-cleared: arg0 == nil || !livingOf(arg0) || c.visibility == LivingVisibilityShow
+//@   deepcall IndividualNode.* except IsLiving,Is,Document,Families,Spouses,Parents,Children,SpouseChildren,FamilyWithSpouse,FamilyWithUnknownSpouse,Pointer,Identifier,Tag,Nodes,Name,Names,String check data-cleared: arg0 == nil || !livingOf(arg0) || c.visibility != LivingVisibilityHide
+//@   opaque IndividualNode.*, NameNode.*, BirthNode.*, DeathNode.*, BaptismNode.*, BurialNode.*, DateNode.*, PlaceNode.*, SexNode.*
+//@   assigns alloc
+//@   trustframe
+//@ func FamilyInList.WriteHTMLTo
+//@   props C17
+//@   requires valid: c.visibility == LivingVisibilityShow || c.visibility == LivingVisibilityHide || c.visibility == LivingVisibilityPlaceholder
+//@   deepcall IndividualNode.Name check name-cleared: arg0 == nil || !livingOf(arg0) || c.visibility == LivingVisibilityShow
+//@   deepcall IndividualNode.Names check name-cleared: arg0 == nil || !livingOf(arg0) || c.visibility == LivingVisibilityShow
+//@   deepcall IndividualNode.String check name-cleared: arg0 == nil || !livingOf(arg0) || c.visibility == LivingVisibilityShow
+//@   deepcall IndividualNode.* except IsLiving,Is,Document,Families,Spouses,Parents,Children,SpouseChildren,FamilyWithSpouse,FamilyWithUnknownSpouse,Pointer,Identifier,Tag,Nodes,Name,Names,String check data-cleared: arg0 == nil || !livingOf(arg0) || c.visibility != LivingVisibilityHide
+//@   opaque IndividualNode.*, NameNode.*, BirthNode.*, DeathNode.*, BaptismNode.*, BurialNode.*, DateNode.*, PlaceNode.*, SexNode.*
+//@   assigns alloc
+//@   trustframe
+//@ func Publisher.sendIndividualFiles
+//@   props C17
+//@   requires valid: publisher.options.LivingVisibility == LivingVisibilityShow || publisher.options.LivingVisibility == LivingVisibilityHide || publisher.options.LivingVisibility == LivingVisibilityPlaceholder
+//@   deepcall IndividualNode.Name check name-cleared: arg0 == nil || !livingOf(arg0) || publisher.options.LivingVisibility == LivingVisibilityShow
+//@   deepcall IndividualNode.Names check name-cleared: arg0 == nil || !livingOf(arg0) || publisher.options.LivingVisibility == LivingVisibilityShow
+//@   deepcall IndividualNode.String check name-cleared: arg0 == nil || !livingOf(arg0) || publisher.options.LivingVisibility == LivingVisibilityShow
+//@   deepcall IndividualNode.* except IsLiving,Is,Document,Families,Spouses,Parents,Children,SpouseChildren,FamilyWithSpouse,FamilyWithUnknownSpouse,Pointer,Identifier,Tag,Nodes,Name,Names,String check data-cleared: arg0 == nil || !livingOf(arg0) || publisher.options.LivingVisibility != LivingVisibilityHide
+//@   opaque IndividualNode.*, NameNode.*, BirthNode.*, DeathNode.*, BaptismNode.*, BurialNode.*, DateNode.*, PlaceNode.*, SexNode.*
+//@   assigns alloc
+//@   trustframe
+//@   oncall NewIndividualPage check page-only-for-cleared: arg1 == nil || !livingOf(arg1) || publisher.options.LivingVisibility == LivingVisibilityShow
+//@   oncall PageIndividual check vis-passed: arg2 == publisher.options.LivingVisibility
+//@ func IndividualInList.WriteHTMLTo
+//@   props C17
+//@   requires valid: c.visibility == LivingVisibilityShow || c.visibility == LivingVisibilityHide || c.visibility == LivingVisibilityPlaceholder
+//@   requires cleared: c.individual == nil || !livingOf(c.individual) || c.visibility == LivingVisibilityShow
+//@   deepcall IndividualNode.Name check name-cleared: arg0 == nil || !livingOf(arg0) || c.visibility == LivingVisibilityShow
+//@   deepcall IndividualNode.Names check name-cleared: arg0 == nil || !livingOf(arg0) || c.visibility == LivingVisibilityShow
+//@   deepcall IndividualNode.String check name-cleared: arg0 == nil || !livingOf(arg0) || c.visibility == LivingVisibilityShow
+//@   deepcall IndividualNode.* except IsLiving,Is,Document,Families,Spouses,Parents,Children,SpouseChildren,FamilyWithSpouse,FamilyWithUnknownSpouse,Pointer,Identifier,Tag,Nodes,Name,Names,String check data-cleared: arg0 == nil || !livingOf(arg0) || c.visibility != LivingVisibilityHide
+//@   opaque IndividualNode.*, NameNode.*, BirthNode.*, DeathNode.*, BaptismNode.*, BurialNode.*, DateNode.*, PlaceNode.*, SexNode.*
+//@   assigns alloc
+//@   trustframe
+//@ func IndividualEvents.WriteHTMLTo
+//@   props C17
+//@   requires valid: c.visibility == LivingVisibilityShow || c.visibility == LivingVisibilityHide || c.visibility == LivingVisibilityPlaceholder
+//@   requires cleared: c.individual == nil || !livingOf(c.individual) || c.visibility == LivingVisibilityShow
+//@   deepcall IndividualNode.Name check name-cleared: arg0 == nil || !livingOf(arg0) || c.visibility == LivingVisibilityShow
+//@   deepcall IndividualNode.Names check name-cleared: arg0 == nil || !livingOf(arg0) || c.visibility == LivingVisibilityShow
+//@   deepcall IndividualNode.String check name-cleared: arg0 == nil || !livingOf(arg0) || c.visibility == LivingVisibilityShow
+//@   deepcall IndividualNode.* except IsLiving,Is,Document,Families,Spouses,Parents,Children,SpouseChildren,FamilyWithSpouse,FamilyWithUnknownSpouse,Pointer,Identifier,Tag,Nodes,Name,Names,String check data-cleared: arg0 == nil || !livingOf(arg0) || c.visibility != LivingVisibilityHide
+//@   opaque IndividualNode.*, NameNode.*, BirthNode.*, DeathNode.*, BaptismNode.*, BurialNode.*, DateNode.*, PlaceNode.*, SexNode.*
+//@   assigns alloc
+//@   trustframe
+//@ func IndividualPage.WriteHTMLTo
+//@   props C17
+//@   requires valid: c.options.LivingVisibility == LivingVisibilityShow || c.options.LivingVisibility == LivingVisibilityHide || c.options.LivingVisibility == LivingVisibilityPlaceholder
+//@   requires cleared: c.individual == nil || !livingOf(c.individual) || c.options.LivingVisibility == LivingVisibilityShow
+//@   deepcall IndividualNode.Name check name-cleared: arg0 == nil || !livingOf(arg0) || c.options.LivingVisibility == LivingVisibilityShow
+//@   deepcall IndividualNode.Names check name-cleared: arg0 == nil || !livingOf(arg0) || c.options.LivingVisibility == LivingVisibilityShow
+//@   deepcall IndividualNode.String check name-cleared: arg0 == nil || !livingOf(arg0) || c.options.LivingVisibility == LivingVisibilityShow
+//@   deepcall IndividualNode.* except IsLiving,Is,Document,Families,Spouses,Parents,Children,SpouseChildren,FamilyWithSpouse,FamilyWithUnknownSpouse,Pointer,Identifier,Tag,Nodes,Name,Names,String check data-cleared: arg0 == nil || !livingOf(arg0) || c.options.LivingVisibility != LivingVisibilityHide
+//@   opaque IndividualNode.*, NameNode.*, BirthNode.*, DeathNode.*, BaptismNode.*, BurialNode.*, DateNode.*, PlaceNode.*, SexNode.*
+//@   assigns alloc
+//@   trustframe
+//@   oncall NewIndividualEvents check cleared-at-construction: arg1 == c.individual && arg2 == c.options.LivingVisibility
+//@   oncall NewIndividualNameAndSex check same-individual: arg0 == c.individual
+//@   oncall NewIndividualAdditionalNames check same-individual: arg0 == c.individual
+// EventStatistics has no visibility parameter at all: it may only read the
+// events of individuals that are not living.
+//@ func EventStatistics.WriteHTMLTo
+//@   props C17
+//@   deepcall IndividualNode.* except IsLiving,Is,Document,Families,Spouses,Parents,Children,SpouseChildren,FamilyWithSpouse,FamilyWithUnknownSpouse,Pointer,Identifier,Tag,Nodes,Name,Names,String check data-cleared: arg0 == nil || !livingOf(arg0)
+//@   opaque IndividualNode.*, NameNode.*, BirthNode.*, DeathNode.*, BaptismNode.*, BurialNode.*, DateNode.*, PlaceNode.*, SexNode.*
+//@   assigns alloc
+//@   trustframe
